@@ -48,6 +48,12 @@ def hostile_scalar(rng, g):
         # carry out of the top digit: all-16 / all-31 high digits
         k = n - rng.randrange(1, 1 << 20)
         return k % n, "near-n"
+    if endo_mu(g) is not None and (t == 5 or rng.randrange(5) == 0):
+        import c11
+        key = g.name
+        if key not in ENDO:
+            ENDO[key] = c11.endo_lattice_constants(endo_mu(g), n)
+        return c11.rounding_boundary_scalar(rng, n, ENDO[key]), "endo-limb-rounding-boundary"
     if t in (5, 6):
         mu = endo_mu(g)
         if mu is not None:
@@ -164,7 +170,7 @@ def main(argv):
         curves = ALL_CURVES
         if a.tier == "quick":
             cfgs = (a.configs.split(",") if a.configs else ["default", "m51", "w32"])
-            n = int(1600 * a.scale)
+            n = int(4000 * a.scale)
         else:
             cfgs = (a.configs.split(",") if a.configs else ALL_CONFIGS)
             n = int(60000 * a.scale)
@@ -175,7 +181,7 @@ def main(argv):
         for c in curves:
             req += [c + ":table-entry", c + ":digit=16", c + ":window=0", c + ":scalar:extreme", c + ":scalar:digit-string", c + ":mulgen", c + ":mul",
                     c + ":point-neutral", c + ":mul-vs-mulgen"]
-        req += ["jq255e:scalar:endo-extreme-halves", "secp256k1:scalar:endo-extreme-halves", "gls254:scalar:endo-extreme-halves",
+        req += ["jq255e:scalar:endo-limb-rounding-boundary", "gls254:scalar:endo-limb-rounding-boundary", "jq255e:scalar:endo-extreme-halves", "secp256k1:scalar:endo-extreme-halves", "gls254:scalar:endo-extreme-halves",
                 "ed25519:point-not-in-subgroup", "ed448:point-not-in-subgroup"]
         rep.require(*req)
         rep.extra["exhaustive"] = False
